@@ -552,6 +552,113 @@ static void case_big(const args_t *a, long c, rng_t *r)
 	free(buf); unlink(path);
 }
 
+/* ------------------------------------------------------------------ one writer-made data block around the 2^32 boundary (thorough, -O2 build) */
+static void case_bigblock(const args_t *a, long c, rng_t *r)
+{
+	(void)r;
+	/* entry area of exactly UINT32_MAX - 1, UINT32_MAX, UINT32_MAX + 1 bytes: the restart array must be 32-bit, 32-bit, 64-bit */
+	static const int64_t DELTA[] = {-1, 0, 1, 4096};
+	uint64_t target = (uint64_t)UINT32_MAX + DELTA[c % 4];
+	char path[4096]; snprintf(path, sizeof path, "%s/bigblock-%ld.mtbl", a->workdir, c); unlink(path);
+	struct mtbl_writer_options *wo = mtbl_writer_options_init();
+	mtbl_writer_options_set_compression(wo, MTBL_COMPRESSION_NONE);
+	mtbl_writer_options_set_block_size(wo, (size_t)6 << 30);
+	struct mtbl_writer *w = mtbl_writer_init(path, wo);
+	mtbl_writer_options_destroy(&wo);
+	/* keys k0..k3, restart interval 16: entry i costs 3 header varints (1 + 1 + 5 bytes) + non-shared key bytes + value */
+	const uint64_t V = 1ULL << 30;
+	uint64_t fixed = (7 + 2) + 3 * (7 + 1);
+	uint64_t v3 = target - fixed - 3 * V;
+	uint8_t *buf = calloc(1, V + 8192);
+	if (!buf) { inconclusive("cannot allocate 1 GiB"); return; }
+	model_t m; model_init(&m);
+	for (int i = 0; i < 4; i++) {
+		char k[4]; snprintf(k, sizeof k, "k%d", i);
+		uint64_t lv = i < 3 ? V : v3;
+		buf[0] = (uint8_t)(i + 1); buf[lv - 1] = (uint8_t)(0x40 + i);
+		if (mtbl_writer_add(w, (uint8_t *)k, 2, buf, lv) != mtbl_res_success) viol("C09/big-block-add-refused", "add %d refused", i);
+		buf[lv - 1] = 0;
+	}
+	mtbl_writer_destroy(&w);
+	size_t len; uint8_t *data = map_file(path, &len);
+	rd_file_t f;
+	if (!data) inconclusive("cannot map the big block file");
+	else if (rd_parse(data, len, 0, &f) != 0) { viol("C09/undecodable", "independent decoder rejects the writer's block with an entry area of %" PRIu64 " bytes: %s", target, f.err); rd_free(&f); }
+	else {
+		if (f.n_blocks != 1 || f.blocks[0].n_ents != 4) viol("C09/entry-count", "big block: %zu blocks, %zu entries", f.n_blocks, f.n_blocks ? f.blocks[0].n_ents : 0);
+		else {
+			rd_block_t *b = &f.blocks[0];
+			if (b->entries_end != target) viol("C09/big-block-entry-area", "entry area is %" PRIu64 " bytes, expected %" PRIu64, b->entries_end, target);
+			if (b->restart64 != (target > UINT32_MAX)) viol("C09/restart-array-width", "entry area %" PRIu64 ": restart array is %d-bit", target, b->restart64 ? 64 : 32);
+			if (!b->restarts_valid) viol("C09/restart-array-invalid", "big block restart array invalid");
+			if (b->crc_stored != b->crc_calc) viol("C09/block-crc", "big block crc");
+			statf(1, "bigblock.restart_width.%d", b->restart64 ? 64 : 32);
+		}
+		rd_free(&f);
+	}
+	if (data) unmap_file(data, len);
+	/* and the library's own reader must read its own block back */
+	fflush(stdout);
+	pid_t pid = fork();
+	if (pid == 0) {
+		struct mtbl_reader *rd = mtbl_reader_init(path, NULL);
+		if (!rd) _exit(3);
+		struct mtbl_iter *it = mtbl_source_iter(mtbl_reader_source(rd));
+		const uint8_t *k, *v; size_t lk, lv; int n = 0;
+		while (mtbl_iter_next(it, &k, &lk, &v, &lv) == mtbl_res_success) { if (lk != 2 || k[1] != '0' + n || v[0] != n + 1 || v[lv - 1] != 0x40 + n || lv != (n < 3 ? V : v3)) _exit(4); n++; }
+		_exit(n == 4 ? 0 : 5);
+	}
+	int st; waitpid(pid, &st, 0);
+	if (!(WIFEXITED(st) && WEXITSTATUS(st) == 0)) viol("C01/big-block-readback-differs", "the reader does not return the four entries of the writer's own block with an entry area of %" PRIu64 " bytes (child status %d)", target, st);
+	free(buf); unlink(path);
+	STAT("bigblock.cases");
+	if (want_sample()) sample("bigblock: writer with block size 6 GiB, 3 values of 2^30 bytes and one of %" PRIu64 ": entry area exactly %" PRIu64 " bytes; decoded independently and read back", v3, target);
+	case_hash(target);
+	model_free(&m);
+}
+
+/* ------------------------------------------------------------------ one value larger than 2 GiB through each block pipeline (thorough, -O2 build) */
+static void case_bigvalue(const args_t *a, long c, rng_t *r)
+{
+	(void)r;
+	static const int COMP[] = {MTBL_COMPRESSION_SNAPPY, MTBL_COMPRESSION_NONE, MTBL_COMPRESSION_ZLIB};
+	int comp = COMP[c % 3];
+	char path[4096]; snprintf(path, sizeof path, "%s/bigvalue-%ld.mtbl", a->workdir, c); unlink(path);
+	const uint64_t lv = (1ULL << 31) + 4096 + (uint64_t)c;
+	uint8_t *buf = calloc(1, lv);
+	if (!buf) { inconclusive("cannot allocate 2 GiB"); return; }
+	buf[0] = 0xA1; buf[lv / 2] = 0xB2; buf[lv - 1] = 0xC3;
+	fflush(stdout);
+	pid_t pid = fork();
+	if (pid == 0) {
+		struct mtbl_writer_options *wo = mtbl_writer_options_init();
+		mtbl_writer_options_set_compression(wo, (mtbl_compression_type)comp);
+		struct mtbl_writer *w = mtbl_writer_init(path, wo);
+		if (mtbl_writer_add(w, (const uint8_t *)"a", 1, (const uint8_t *)"small", 5) != mtbl_res_success) _exit(3);
+		if (mtbl_writer_add(w, (const uint8_t *)"big", 3, buf, lv) != mtbl_res_success) _exit(3);
+		if (mtbl_writer_add(w, (const uint8_t *)"z", 1, (const uint8_t *)"tail", 4) != mtbl_res_success) _exit(3);
+		mtbl_writer_destroy(&w);
+		struct mtbl_reader *rd = mtbl_reader_init(path, NULL);
+		if (!rd) _exit(4);
+		struct mtbl_iter *it = mtbl_source_iter(mtbl_reader_source(rd));
+		const uint8_t *k, *v; size_t lk, l2; int n = 0;
+		while (mtbl_iter_next(it, &k, &lk, &v, &l2) == mtbl_res_success) {
+			if (n == 1 && (l2 != lv || v[0] != 0xA1 || v[lv / 2] != 0xB2 || v[lv - 1] != 0xC3 || memcmp(v + 1, buf + 1, 1 << 20) != 0)) _exit(5);
+			if (n == 0 && (l2 != 5 || memcmp(v, "small", 5))) _exit(5);
+			if (n == 2 && (l2 != 4 || memcmp(v, "tail", 4))) _exit(5);
+			n++;
+		}
+		_exit(n == 3 ? 0 : 6);
+	}
+	int st; waitpid(pid, &st, 0);
+	if (!(WIFEXITED(st) && WEXITSTATUS(st) == 0)) viol("C01/value-over-2GiB-not-round-tripped", "a table with one value of %" PRIu64 " bytes (compression %s) was not written and read back (child status %d, %s)", lv, COMP_NAME[comp], st, WIFSIGNALED(st) ? "killed by a signal" : "exit code = step that failed");
+	free(buf); unlink(path);
+	statf(1, "bigvalue.%s", COMP_NAME[comp]);
+	STAT("bigvalue.cases");
+	if (want_sample()) sample("bigvalue: three entries, the middle value has %" PRIu64 " bytes, compression %s: written and read back", lv, COMP_NAME[comp]);
+	case_hash(lv ^ comp);
+}
+
 int main(int argc, char **argv)
 {
 	args_t a;
@@ -562,6 +669,8 @@ int main(int argc, char **argv)
 	else if (!strcmp(a.sub, "c09")) f = case_c09;
 	else if (!strcmp(a.sub, "c10")) f = case_c10;
 	else if (!strcmp(a.sub, "big")) f = case_big;
+	else if (!strcmp(a.sub, "bigblock")) f = case_bigblock;
+	else if (!strcmp(a.sub, "bigvalue")) f = case_bigvalue;
 	else return 98;
 	return run_cases(&a, f);
 }
